@@ -16,7 +16,12 @@ def encoder_tables(program):
     return _cache[k]
 
 def _norm_ite(t):
-    """(a if x is None else b) -> (b if x is not None else a)"""
+    """(a if x is None else b) -> (b if x is not None else a); type assertions folded into the condition (`x is not None and isinstance(x, T)`,
+    from an `assert isinstance(..)` on that path) are dropped: assertions are taken as holding"""
+    if t[0] == 'ite' and t[1][0] == 'bool' and t[1][1] == 'and':
+        rest = [c for c in t[1][2] if not (c[0] == 'call' and c[1] == ('name', 'isinstance'))]
+        if len(rest) == 1 and len(rest) < len(t[1][2]):
+            return _norm_ite(('ite', rest[0], t[2], t[3]))
     if t[0] == 'ite' and t[1][0] == 'cmp' and t[1][1] == 'is' and t[1][3] == NONE:
         return ('ite', ('cmp', 'is not', t[1][2], NONE), t[3], t[2])
     if t[0] == 'ite' and t[1][0] == 'unop' and t[1][1] == 'not' and t[1][2][0] == 'cmp' and t[1][2][1] in ('is', 'is not') and t[1][2][3] == NONE:
@@ -100,7 +105,7 @@ def classify(V, M):
                 out.update(kind='TIME', conv=ic[0], res=ic[2][1], bits=b[2][1][1], absent_signed=(extra[0][1] if extra and sym.is_const(extra[0]) else None)); return out
             if a == raw:
                 out.update(kind='TIME', conv='none', res=1, bits=b[2][1][1], absent_signed=(extra[0][1] if extra and sym.is_const(extra[0]) else None)); return out
-    return {'kind': '?', 'id': idt[1], 'why': 'unrecognised producer ' + show(V)[:120]}
+    return {'kind': '?', 'id': idt[1], 'why': 'unrecognised producer ' + show(V)[:600]}
 
 def split_piece(piece):
     """(V & mask) << shift -> (V, mask, shift); missing parts are None"""
